@@ -13,6 +13,7 @@ import TrimeshVerif.Props.C10
 import TrimeshVerif.Props.C11
 import TrimeshVerif.Props.C12
 import TrimeshVerif.Props.C13
+import TrimeshVerif.Props.C14
 import TrimeshVerif.Props.C16
 import TrimeshVerif.Props.C17
 import TrimeshVerif.Props.C18
